@@ -52,6 +52,7 @@ fn with_explorer<R>(f: impl FnOnce(&mut Option<Explorer>) -> R) -> R {
 
 /// Installs an explorer with the given per-label answers. Replaces any previous explorer.
 pub fn install(streams: HashMap<String, Vec<usize>>) {
+    fake_std::thread::forget_pending();
     with_explorer(|explorer| {
         *explorer = Some(Explorer {
             streams: streams
@@ -66,6 +67,8 @@ pub fn install(streams: HashMap<String, Vec<usize>>) {
 /// Removes the explorer and returns the trace of all decisions taken since [`install`], plus a
 /// description of a replay divergence (if any).
 pub fn uninstall() -> (Vec<Choice>, Option<String>) {
+    // Bodies that were spawned but never joined (the run returned early) belong to this execution.
+    fake_std::thread::forget_pending();
     match with_explorer(|explorer| explorer.take()) {
         Some(explorer) => (explorer.trace, explorer.diverged),
         None => (Vec::new(), None),
@@ -312,6 +315,11 @@ pub mod fake_std {
         thread_local! {
             // Bodies of "spawned" threads that have not run yet.
             static PENDING: RefCell<Vec<Body>> = const { RefCell::new(Vec::new()) };
+        }
+
+        /// Drops the bodies that were recorded but never run.
+        pub(crate) fn forget_pending() {
+            PENDING.with(|pending| pending.borrow_mut().clear());
         }
 
         enum Inner<T> {
